@@ -8,7 +8,7 @@ import hashlib
 import json
 import os
 
-from vlib import runner, sut, std, cli
+from vlib import runner, sut, std, cli, fuzz
 from vlib.runner import Outcome, Report, Reject
 from gen import messages as gmsg, streams as gstreams
 
@@ -146,6 +146,17 @@ def check_cli(case):
     return out
 
 
+# ---- coverage-guided stage: the same generator and oracle, decisions taken from fuzzer bytes (vlib.fuzz) ----
+_FUZZ_OPTS = gstreams.small_opts('quick')
+
+
+def _fuzz_gen(ch):
+    return gen_case(ch, _FUZZ_OPTS)
+
+
+fuzz_case = fuzz.structured_target(_fuzz_gen, check_case)
+
+
 def run(tier, seed):
     rep = Report(PID, tier, seed, 'exploration')
     rep.rule = ('streams of 0..8 reference-built messages (editions 2-4, compressed or not, character fields / section 2 holding '
@@ -167,6 +178,7 @@ def run(tier, seed):
         runner.run_generated(rep, lambda ch: gen_case(ch, opts), check_cli, 40, 4, stage='command line')
     rep.required_classes = ['n_messages_0', 'n_messages_4+', 'signature_in_a_body', 'signature_in_section2', 'filter_selects_some',
                             'filter_mixed_editions', 'partial_signature_separator', 'mixed_editions', 'cli']
+    fuzz.run_structured(rep, 'checks.c11', _fuzz_gen, tier)
     return rep.finish()
 
 
